@@ -1140,5 +1140,57 @@ fn main() {
         }
         run.ev.set("tdigest_copy_evolution_cases", json!(cases));
     }
+    // HyperLogLog over its WHOLE register file: the small-alphabet trees above touch at most six registers, so anything the
+    // sketch keeps about "all registers" (a cached minimum, a count of registers at some value) is never exercised. For
+    // b = 4, 5, 6: fill every register (several rank patterns and orders), clear(), then re-feed every register in another
+    // order in lockstep with a fresh sketch, comparing registers and count() after every add.
+    {
+        let mut cases = 0u64;
+        for b in [4usize, 5, 6] {
+            let m = 1u64 << b;
+            let hash = |j: u64, r: u64| -> u64 { if r == 0 { j } else { j | (1u64 << (64 - r)) } }; // register j, rank r (0 = the maximal rank)
+            let orders: Vec<Box<dyn Fn(u64) -> u64>> = vec![Box::new(|i| i), Box::new(move |i| m - 1 - i), Box::new(move |i| (i * 5 + 3) % m)];
+            for (po, pre_order) in orders.iter().enumerate() {
+                for pre_ranks in 0..3u64 {
+                    for (co, cont_order) in orders.iter().enumerate() {
+                        cases += 1;
+                        let r = mccore::panics::catch(|| {
+                            let mut a = checks::hll::fresh(b);
+                            for i in 0..m {
+                                let j = pre_order(i);
+                                a.add_hashed(hash(j, match pre_ranks { 0 => 1, 1 => 1 + (j % 3), _ => 2 + (i % 2) }));
+                            }
+                            if pre_ranks == 2 {
+                                // second pass raising every register once more
+                                for i in 0..m {
+                                    a.add_hashed(hash(pre_order(i), 4));
+                                }
+                            }
+                            a.clear();
+                            let mut f = checks::hll::fresh(b);
+                            for pass in 0..3u64 {
+                                for i in 0..m {
+                                    let j = cont_order(i);
+                                    let h = hash(j, 1 + pass + (j + pass) % 2);
+                                    a.add_hashed(h);
+                                    f.add_hashed(h);
+                                    if a.registers() != f.registers() || a.count() != f.count() || a.is_empty() != f.is_empty() {
+                                        return Some(format!("after clear() and {} further add_hashed calls: cleared sketch count {} / fresh sketch count {}, registers {}", pass * m + i + 1, a.count(), f.count(), if a.registers() == f.registers() { "equal" } else { "differ" }));
+                                    }
+                                }
+                            }
+                            None
+                        });
+                        let bad = match r { Err(p) => Some(format!("panicked: {}", p)), Ok(x) => x };
+                        if let Some(msg) = bad {
+                            run.violation(Viol { property: "C19".into(), signature: "HyperLogLog clear() != fresh".into(), message: format!("HyperLogLog b={}: every register filled (order #{}, rank pattern #{}), clear(), every register re-fed (order #{}): {}", b, po, pre_ranks, co, msg),
+                                replay: json!({"structure": "HyperLogLog", "b": b, "hasher": "identity", "hash_of(register j, rank r)": "j | 1 << (64 - r)", "pre_order": po, "pre_rank_pattern": pre_ranks, "continuation_order": co, "orders": ["i", "m-1-i", "(5i+3) mod m"]}) });
+                        }
+                    }
+                }
+            }
+        }
+        run.ev.set("hll_full_register_clear_cases", json!(cases));
+    }
     run.finish();
 }
